@@ -7,7 +7,7 @@ Open Scope Q_scope.
 
 Record tr := { t_mask : list bool; t_eff : nat; t_par : list Q; t_stats : list Q (* rmse mae std *) }.
 Record case07 := { k_g : geom; k_p : list pt4; k_wxy : option (list Q); k_wuv : option (list Q);
-                   k_nsig : Q; k_st : stat; k_accum : bool; k_trace : list tr }.
+                   k_nsig : Q; k_st : stat; k_accum : bool; k_exact : bool; k_trace : list tr }.
 
 Definition par_of (l : list Q) : fitp :=
   match l with
@@ -29,7 +29,8 @@ Let minobj := minpts (k_g c).
 Let w := eff_weights n (comb (k_wxy c) (k_wuv c)).
 Let weighted := match comb (k_wxy c) (k_wuv c) with None => false | Some _ => true end.
 Let sc := maxcoord (k_p c).
-Let eps2 := Qred (two_m36 * sc * (two_m36 * sc)).
+Let eps2 := if k_exact c then 0 else Qred (two_m36 * sc * (two_m36 * sc)).
+Let rel := if k_exact c then 1 else rel20.
 
 (* the fit reported with mask m is the plain fit of the retained points *)
 Definition fit_ok (e : tr) : bool :=
@@ -55,7 +56,7 @@ Definition stats_ok (e : tr) : bool :=
 Definition step_ok (k : nat) (e e' : tr) : bool :=
   let same := meqb (t_mask e') (t_mask e) && Nat.eqb (t_eff e') (t_eff e) in
   if (t_eff e <? k)%nat then same else
-  let '(v, nlo, nhi) := clip_step3 minobj (k_accum c) weighted (k_st c) (k_nsig c) eps2 (k_p c) w wm
+  let '(v, nlo, nhi) := clip_step3 minobj (k_accum c) weighted (k_st c) (k_nsig c) rel eps2 (k_p c) w wm
                                    (t_mask e) (par_of (t_par e)) in
   let go := Nat.eqb (t_eff e') (S k) && between nlo (t_mask e') nhi in
   match v with
@@ -95,7 +96,7 @@ Definition show07 :=
       match l with
       | e :: ((e' :: _) as r) =>
           (step_ok k e e',
-           clip_step3 minobj (k_accum c) weighted (k_st c) (k_nsig c) eps2 (k_p c) w wm (t_mask e) (par_of (t_par e)))
+           clip_step3 minobj (k_accum c) weighted (k_st c) (k_nsig c) rel eps2 (k_p c) w wm (t_mask e) (par_of (t_par e)))
           :: go (S k) r
       | _ => []
       end) 0%nat (k_trace c)).
